@@ -428,6 +428,9 @@ func tagsOf(in Input) []string {
 			if i < 2 && hasTopLevelAlternation(p) {
 				add("alternation")
 			}
+			if i < 2 && endsWithEscapedDollar(p) {
+				add("escaped-dollar")
+			}
 		}
 		if strings.ContainsAny(s, "^$") {
 			add("anchors")
